@@ -29,6 +29,8 @@ pub const REPLAY: Option<fn(&mut Ctx, &Args, &serde_json::Value, Option<&[u8]>)>
 pub const SIZE_ALPHABET: [u32; 3] = [10, 40000, 65530];
 /// name of the structural class of the known defect, see `Spec::has_mixed_root_with_shared_descendant`
 pub const KNOWN_CLASS: &str = "root-with-16+32bit-parents-and-shared-descendant";
+/// see `Spec::has_nested_wide_targets_with_shared_descendant`
+pub const KNOWN_CLASS_2: &str = "nested-32bit-targets-with-shared-descendant";
 
 pub fn run(ctx: &mut Ctx, _args: &Args) {
     ctx.level = "runtime-monitoring".into();
@@ -173,8 +175,33 @@ pub fn run_graph_case(ctx: &mut Ctx, spec: &Spec, workload: &str, case_id: &str)
     CaseOut { outcome, trace }
 }
 
-fn is_known_cycle_panic(p: &PanicInfo) -> bool {
-    p.file.ends_with("write-fonts/src/graph.rs") && p.msg == "cycle or something?"
+/// Classes of the two open findings. Both are decided from (panic site,
+/// message, stage trace) AND a structural predicate on the INPUT graph, so a
+/// different panic, the same panic on a graph outside the class, or any
+/// mis-resolved offset is still reported under a per-case signature.
+fn known_class(p: &PanicInfo, spec: &Spec, trace: &str) -> Option<&'static str> {
+    if !p.file.ends_with("write-fonts/src/graph.rs") {
+        return None;
+    }
+    // defect 1: explicit panic at the end of sort_shortest_distance after duplication ran
+    if p.msg == "cycle or something?"
+        && trace.contains("duplicate_subgraph")
+        && trace.ends_with("shortest_distance")
+        && spec.has_mixed_root_with_shared_descendant()
+    {
+        return Some(KNOWN_CLASS);
+    }
+    // defect 2: assert_eq!(parent_space, child space) in try_isolating_subgraphs,
+    // reached only after a first isolation round
+    if p.msg.starts_with("assertion `left == right` failed")
+        && p.msg.contains("Space(")
+        && trace.contains("isolate_subgraph")
+        && trace.ends_with("shortest_distance")
+        && spec.has_nested_wide_targets_with_shared_descendant()
+    {
+        return Some(KNOWN_CLASS_2);
+    }
+    None
 }
 
 fn judge_pack_panic(ctx: &mut Ctx, p: &PanicInfo, spec: &Spec, workload: &str, case_id: &str, trace: &str) {
@@ -184,17 +211,13 @@ fn judge_pack_panic(ctx: &mut Ctx, p: &PanicInfo, spec: &Spec, workload: &str, c
     }
     ctx.count("outcome:panic", 1);
     ctx.count(&format!("panic_class:{}", p.class.as_str()), 1);
-    // The known defect's class is decided on the INPUT only; the trace must show
-    // that duplication ran (the panic needs an orphaned duplicate).
-    let known_class = is_known_cycle_panic(p)
-        && trace.contains("duplicate_subgraph")
-        && trace.ends_with("shortest_distance")
-        && spec.has_mixed_root_with_shared_descendant();
-    let sig = if known_class {
-        ctx.count("panic_in_known_class", 1);
-        format!("pack-panic:{}:{}:{}", p.file, p.line, KNOWN_CLASS)
-    } else {
-        format!("pack-panic:{}:{}:unclassified:{}", p.file, p.line, case_id)
+    let sig = match known_class(p, spec, trace) {
+        Some(class) => {
+            ctx.count(&format!("panic_in_known_class:{}", class), 1);
+            ctx.sample_by_kind(&format!("panic:{}", class), json!({"id": case_id, "spec": spec.to_json(), "trace": trace, "line": p.line}));
+            format!("pack-panic:{}:{}:{}", p.file, p.line, class)
+        }
+        None => format!("pack-panic:{}:{}:unclassified:{}", p.file, p.line, case_id),
     };
     ctx.violation(
         &sig,
